@@ -69,6 +69,24 @@ func New(ns string, input string) (*xmpp.Session, *RW, error) {
 	return s, rw, err
 }
 
+// NewRebound is like New, but the session starts out knowing only its domain
+// and learns its address during negotiation (as resource binding does for an
+// anonymous or server-assigned login): the negotiator calls UpdateAddr(Origin).
+func NewRebound(ns string, input string) (*xmpp.Session, *RW, error) {
+	rw := &RW{In: bytes.NewReader([]byte(Header(ns) + input))}
+	var st xmpp.SessionState
+	if ns == stanza.NSServer {
+		st = xmpp.S2S
+	}
+	ready := ReadyNegotiator(ns, 0)
+	neg := func(ctx context.Context, in, out *stream.Info, s *xmpp.Session, data interface{}) (xmpp.SessionState, io.ReadWriter, interface{}, error) {
+		s.UpdateAddr(Origin)
+		return ready(ctx, in, out, s, data)
+	}
+	s, err := xmpp.NewSession(context.Background(), Location, Location, rw, st, neg)
+	return s, rw, err
+}
+
 // NewReceived is like New for the receiving side of a stream: the session
 // was initiated by the peer (Origin) towards us (Location).
 func NewReceived(ns string, input string) (*xmpp.Session, *RW, error) {
